@@ -691,12 +691,12 @@ func (h *harness) voxelCase(s sdf.SDF3, desc string, mesh int, stratum string, r
 	})
 	var ts, qs []string
 	for _, k := range keys {
-		ts = append(ts, fmt.Sprintf("(i3 %s %s %s, %s)", CZ(k.X), CZ(k.Y), CZ(k.Z), CF(tab[k])))
+		ts = append(ts, fmt.Sprintf("(i3 %d%%Z %d%%Z %d%%Z, %s)", k.X, k.Y, k.Z, CF(tab[k])))
 	}
 	for _, p := range queries {
 		qs = append(qs, fmt.Sprintf("(%s, %s)", cv3(p), CF(vs.Evaluate(p))))
 	}
-	h.voxel.Add(fmt.Sprintf("(%d%%N, %s, %s, %d, i3 %d %d %d, %s, %s)", id, cv3(bb.Min), cv3(bb.Max), mesh, cells.X, cells.Y, cells.Z,
+	h.voxel.Add(fmt.Sprintf("(%d%%N, %s, %s, %d%%Z, i3 %d%%Z %d%%Z %d%%Z, %s, %s)", id, cv3(bb.Min), cv3(bb.Max), mesh, cells.X, cells.Y, cells.Z,
 		"["+strings.Join(ts, "; ")+"]", "["+strings.Join(qs, "; ")+"]"))
 	if id%5 == 0 {
 		h.r.Sample(map[string]interface{}{"id": id, "voxel_of": desc, "meshCells": mesh, "cells": cells})
